@@ -1,7 +1,7 @@
 (* FactoryIO.v — cases of C09: one flat case (sub-kind 0: a history on one model; sub-kind 1: a
    queued machine with several models and callbacks that trigger / remove / raise) is run by the
    flat engine AND by the hierarchical engine on its embedding (mapped back); sub-kind 2 asks
-   the factory specification for one flag tuple. *)
+   the factory specification for one flag tuple; sub-kind 3: machine.dispatch on several models (per-model views). *)
 From Coq Require Import List Arith Bool.
 From M Require Import Sx Base Flat FlatSpec FlatIO Queue QueueIO Hsm Factory.
 Import ListNotations.
@@ -85,6 +85,16 @@ Definition run_factory_case (x : sx) : sx :=
           let w0 := mkWorld ms 0 in
           let q0 := mkQS [] (map fst ms) 0 [] in
           L [N 1; L [L (frun_qhistory false mc ev 200 hs w0 q0); L (frun_qhistory true mc ev 200 hs w0 q0)]]
+      | _, _, _, _ => L [N 0]
+      end
+  | L [N 3; L [mcx; evx; msx; hx]] =>
+      (* machine.dispatch(event) on several models whose callbacks do not call back into the machine: every
+         model receives every event, so each model's view is a history of triggers on it (the result of a
+         dispatch is the conjunction of the per-model results, computed by the harness) *)
+      match d_machine mcx, d_env evx, d_list (d_pair d_nat d_nat) msx, d_list d_call hx with
+      | Some mc, Some ev, Some ms, Some hs =>
+          L [N 1; L [L (map (fun ms0 => L (frun_history false mc ev (fst ms0) hs 0 (snd ms0))) ms);
+                     L (map (fun ms0 => L (frun_history true mc ev (fst ms0) hs 0 (snd ms0))) ms)]]
       | _, _, _, _ => L [N 0]
       end
   | L [N 2; L [g; n; l; y]] =>
